@@ -59,6 +59,7 @@ func fillLocalStore(dir string, blob []byte, chunks []desync.IndexChunk) error {
 
 // C01: `desync extract` with seeds, invalid-seed options, prior destination content, with and without --in-place.
 func runC01Proc(c *fw.Case) {
+	c.Probe("process-level-case (real desync binary)")
 	s := genAsmScenario(c, true)
 	storeDir := filepath.Join(c.Dir(), "store.d")
 	if err := fillLocalStore(storeDir, s.blob, s.idx.Chunks); err != nil {
@@ -128,6 +129,7 @@ func tailBytes(b []byte, n int) string {
 
 // C09: `desync cat -o <offset> -l <length>`.
 func runC09Proc(c *fw.Case) {
+	c.Probe("process-level-case (real desync binary)")
 	sz := c09Sizes[c.Draw(len(c09Sizes), "c09.sizes")]
 	blob := genNullyBlob(c, sz)
 	idx := mkIndex(blob, sz)
@@ -172,6 +174,7 @@ func runC09Proc(c *fw.Case) {
 
 // C17: `desync verify-index` exits 0 iff the file matches.
 func runC17Proc(c *fw.Case) {
+	c.Probe("process-level-case (real desync binary)")
 	sz := c09Sizes[c.Draw(len(c09Sizes), "c17.sizes")]
 	blob := genBlob(c, sz, 60*int(sz.max))
 	idx := mkIndex(blob, sz)
@@ -234,6 +237,7 @@ var cliHex64 = regexp.MustCompile(`[0-9a-f]{64}`)
 
 // C16: `desync prune -y` and `desync verify [-r]` on a compressed local store.
 func runC16Proc(c *fw.Case) {
+	c.Probe("process-level-case (real desync binary)")
 	dir := filepath.Join(c.Dir(), "store.d")
 	os.MkdirAll(dir, 0755)
 	r := c.Rand("c16.seed")
@@ -352,6 +356,7 @@ func runC16Proc(c *fw.Case) {
 
 // C05: `desync tar` then `desync untar`, catar file or index+store, both digests.
 func runC05Proc(c *fw.Case) {
+	c.Probe("process-level-case (real desync binary)")
 	src := filepath.Join(c.Dir(), "src")
 	dst := filepath.Join(c.Dir(), "dst")
 	nent, err := genTree(c, src, 30)
@@ -454,6 +459,7 @@ func startServer(args ...string) (stop func(), addr string, err error) {
 
 // C14: the real chunk-server / index-server commands, talked to by the real HTTP client over loopback.
 func runC14Proc(c *fw.Case) {
+	c.Probe("process-level-case (real desync binary)")
 	dir := filepath.Join(c.Dir(), "up.d")
 	os.MkdirAll(dir, 0755)
 	r := c.Rand("proc.seed")
